@@ -3,6 +3,8 @@ package c09
 import (
 	"context"
 	"fmt"
+	"io"
+	"sync"
 	"time"
 
 	capnp "capnproto.org/go/capnp/v3"
@@ -16,9 +18,12 @@ import (
 // SCase: a scenario over the real stream transports (rpc.NewStreamTransport / NewPackedStreamTransport) on a
 // harness-owned byte pipe, with one fault at a Write or Read call of the pipe.
 type SCase struct {
-	Packed bool   `json:"packed"`
-	Steps  []Step `json:"steps"`
-	Keeps  []int  `json:"keeps"` // how many bytes a faulted Write accepts / a faulted Read delivers (mod length); one run per entry
+	Packed bool `json:"packed"`
+	// Deadline: the stream has SetReadDeadline/SetWriteDeadline (what a net.Conn gives the transport): context
+	// cancellation interrupts reads and writes through them, and stall faults become possible
+	Deadline bool   `json:"deadline,omitempty"`
+	Steps    []Step `json:"steps"`
+	Keeps    []int  `json:"keeps"` // how many bytes a faulted Write accepts / a faulted Read delivers (mod length); one run per entry
 	// Only restricts the run to one fault (replay).
 	Only *rpcsim.PipeFault `json:"only,omitempty"`
 }
@@ -26,6 +31,8 @@ type SCase struct {
 type sOutcome struct {
 	writes, reads int
 	pending       int
+	conts         int // Writes that completed a buffer an interrupted Write had left unfinished
+
 }
 
 // wholeFrames reports whether the byte stream b (after unpacking, if packed) is a sequence of complete frames.
@@ -98,6 +105,57 @@ func splitFrames(b []byte, packed bool) [][]byte {
 	return out
 }
 
+// frameDiscipline checks the Write calls that put bytes into the stream against the frame grammar: the encoder hands
+// the stream one buffer for the segment table and one per segment, so a table announcing k segments must be followed
+// by exactly those k buffers before the next table - a frame that was abandoned half-way may only be followed by
+// silence.  (A Write that continues a partly accepted buffer belongs to that buffer.)
+func frameDiscipline(recs []rpcsim.WriteRec, packed bool) error {
+	var due []int
+	for i, r := range recs {
+		if r.Accepted == 0 || r.Cont {
+			continue
+		}
+		b := r.Buf
+		if packed {
+			u, err := ref.Unpack(b)
+			if err != nil {
+				return fmt.Errorf("Write #%d: buffer does not unpack: %v", i, err)
+			}
+			b = u
+		}
+		if len(due) > 0 {
+			if len(b) != due[0] {
+				return fmt.Errorf("Write #%d put a %d-byte buffer (%x...) into the stream while a %d-byte segment of the frame begun earlier was still due: the peer reads it as that segment", i, len(b), clip(b), due[0])
+			}
+			due = due[1:]
+			continue
+		}
+		if len(b) < 8 || len(b)%8 != 0 {
+			return fmt.Errorf("Write #%d: a %d-byte buffer where a segment table was due", i, len(b))
+		}
+		nseg := int(uint32(b[0])|uint32(b[1])<<8|uint32(b[2])<<16|uint32(b[3])<<24) + 1
+		hdr := 4 + 4*nseg
+		if hdr%8 != 0 {
+			hdr += 4
+		}
+		if nseg > 64 || len(b) != hdr {
+			return fmt.Errorf("Write #%d: buffer %x... is not a segment table (%d segments announced, %d bytes)", i, clip(b), nseg, len(b))
+		}
+		for k := 0; k < nseg; k++ {
+			o := 4 + 4*k
+			due = append(due, 8*int(uint32(b[o])|uint32(b[o+1])<<8|uint32(b[o+2])<<16|uint32(b[o+3])<<24))
+		}
+	}
+	return nil
+}
+
+func clip(b []byte) []byte {
+	if len(b) > 16 {
+		return b[:16]
+	}
+	return b
+}
+
 func runStream(c SCase, fault *rpcsim.PipeFault) (*sOutcome, error) {
 	before := rpcGoroutines()
 	p := rpcsim.NewPipe()
@@ -105,12 +163,55 @@ func runStream(c SCase, fault *rpcsim.PipeFault) (*sOutcome, error) {
 		f := *fault
 		p.Fault = &f
 	}
+	var rwc io.ReadWriteCloser = p
+	if c.Deadline {
+		rwc = rpcsim.DPipe{Pipe: p}
+	}
 	var tr rpc.Transport
 	if c.Packed {
-		tr = rpc.NewPackedStreamTransport(p)
+		tr = rpc.NewPackedStreamTransport(rwc)
 	} else {
-		tr = rpc.NewStreamTransport(p)
+		tr = rpc.NewStreamTransport(rwc)
 	}
+	if fault != nil && fault.Dead {
+		// the stream stays stuck after the stall: the transport gives the rest of the frame this long
+		tr.(interface{ SetPartialWriteTimeout(time.Duration) }).SetPartialWriteTimeout(30 * time.Millisecond)
+	}
+	// every context the application passes in; a stalled Write is met by cancelling them all
+	var ctxMu sync.Mutex
+	var cancels []context.CancelFunc
+	newCtx := func() (context.Context, context.CancelFunc) {
+		ctx, cancel := context.WithCancel(context.Background())
+		ctxMu.Lock()
+		cancels = append(cancels, cancel)
+		ctxMu.Unlock()
+		return ctx, cancel
+	}
+	runOver := make(chan struct{})
+	defer close(runOver)
+	go func() {
+		select {
+		case <-p.Stalled():
+		case <-runOver:
+			return
+		}
+		ctxMu.Lock()
+		for _, cancel := range cancels {
+			cancel()
+		}
+		ctxMu.Unlock()
+		// a Write made under a context nobody can cancel (the connection's own messages) stays stalled: the stream
+		// recovers by itself after a while
+		for i := 0; i < 150 && !p.StallOver(); i++ {
+			time.Sleep(time.Millisecond)
+		}
+		if !p.StallOver() || fault.Dead {
+			if fault.Dead {
+				time.Sleep(60 * time.Millisecond) // past the partial-write timeout
+			}
+			p.Resume()
+		}
+	}()
 	peer := rpcsim.NewWire()
 	peer.Sink = func(b []byte) {
 		if c.Packed {
@@ -157,13 +258,14 @@ func runStream(c SCase, fault *rpcsim.PipeFault) (*sOutcome, error) {
 		var err error
 		switch s.K {
 		case "app-bootstrap":
-			err = guard("Conn.Bootstrap", func() { clients = append(clients, conn.Bootstrap(context.Background())) })
+			bctx, _ := newCtx()
+			err = guard("Conn.Bootstrap", func() { clients = append(clients, conn.Bootstrap(bctx)) })
 		case "app-call":
 			if len(clients) == 0 {
 				continue
 			}
 			cl := clients[s.A%len(clients)]
-			ctx, cancel := context.WithCancel(context.Background())
+			ctx, cancel := newCtx()
 			ac := &appCall{cancel: cancel}
 			calls = append(calls, ac)
 			err = guard("Client.SendCall", func() {
@@ -189,7 +291,7 @@ func runStream(c SCase, fault *rpcsim.PipeFault) (*sOutcome, error) {
 			if base.ans == nil {
 				continue
 			}
-			ctx, cancel := context.WithCancel(context.Background())
+			ctx, cancel := newCtx()
 			ac := &appCall{cancel: cancel}
 			calls = append(calls, ac)
 			err = guard("Answer.PipelineSend", func() {
@@ -300,10 +402,22 @@ func runStream(c SCase, fault *rpcsim.PipeFault) (*sOutcome, error) {
 	if !closed {
 		return out, pbt.Fail("stream/not-closed", "the underlying stream was not closed by Conn.Close")
 	}
-	if fault != nil && fault.Write && faulted {
+	if fault != nil && fault.Write && faulted && !fault.Stall {
 		if ok, where := wholeFrames(acc[:atFault], c.Packed); !ok && later > 0 {
 			return out, pbt.Fail("stream/write-after-torn-frame", "Write #%d failed after the stream had accepted %d bytes, ending %s; the connection then wrote %d more bytes into the same stream, which the peer can only misparse (fault %+v)", fault.Index, atFault, where, later, *fault)
 		}
+	}
+	recs, garbage := p.WriteRecs()
+	if garbage != "" {
+		return out, pbt.Fail("stream/garbage-after-partial-write", "%s (fault %+v)", garbage, *fault)
+	}
+	for _, r := range recs {
+		if r.Cont && r.Accepted > 0 {
+			out.conts++
+		}
+	}
+	if err := frameDiscipline(recs, c.Packed); err != nil {
+		return out, pbt.Fail("stream/write-after-torn-frame", "%v (fault %+v)", err, fault)
 	}
 	if fault == nil {
 		if ok, where := wholeFrames(acc, c.Packed); !ok {
@@ -352,13 +466,16 @@ func runS(c SCase) (pbt.Result, error) {
 	}
 	res.Count("base_writes", int64(base.writes))
 	res.Count("base_reads", int64(base.reads))
-	points := 0
+	points, stalls, conts := 0, 0, 0
 	pending := base.pending > 0
 	try := func(f rpcsim.PipeFault) error {
 		o, err := runStream(c, &f)
 		points++
 		if o != nil && o.pending > 0 {
 			pending = true
+		}
+		if o != nil {
+			conts += o.conts
 		}
 		if v, ok := err.(*pbt.Violation); ok {
 			side := "read"
@@ -376,6 +493,20 @@ func runS(c SCase) (pbt.Result, error) {
 			}
 		}
 	}
+	if c.Deadline {
+		// the k-th Write stalls after taking part of its buffer; the application cancels; the stream recovers at once
+		// (the frame can be completed) or stays stuck beyond the partial-write timeout (it cannot)
+		for k := 0; k < base.writes; k++ {
+			for _, keep := range c.Keeps {
+				for _, dead := range []bool{false, true} {
+					if err := try(rpcsim.PipeFault{Write: true, Index: k, Keep: keep, Stall: true, Dead: dead}); err != nil {
+						return res, err
+					}
+					stalls++
+				}
+			}
+		}
+	}
 	for k := 0; k < base.reads; k++ {
 		for _, keep := range c.Keeps {
 			for _, eof := range []bool{false, true} {
@@ -387,7 +518,10 @@ func runS(c SCase) (pbt.Result, error) {
 	}
 	res.Count("fault_points", int64(points))
 	res.Count("scenarios_exhaustive", 1)
+	res.Count("stall_points", int64(stalls))
+	res.Count("interrupted_writes_completed", int64(conts))
 	res.Class("packed:%v", c.Packed)
+	res.Class("deadline-stream:%v", c.Deadline)
 	res.Class("writes:%s", bucket(base.writes))
 	res.Nontrivial = pending
 	return res, nil
@@ -395,10 +529,10 @@ func runS(c SCase) (pbt.Result, error) {
 
 var _ = pbt.Register(pbt.Spec[SCase]{
 	Property: "C09", Name: "stream-faults",
-	Rule:  "the same step vocabulary as fault-enumeration, but over the repository's own stream transports (plain and packed) on a harness-owned byte pipe without deadline support. The scenario is run fault-free to count the pipe's Write calls W and Read calls R; it is then re-run for EVERY Write index (failing after accepting 0 or a drawn number of bytes, always short of the buffer) and EVERY Read index (delivering 0 or a drawn number of bytes, then an error or EOF). Oracle per run: the termination/cleanup oracle of fault-enumeration, the stream is closed, and once a failed Write left the stream in the middle of a frame (judged by an independent frame/packing parser) no later byte is written into it. Non-trivial: a call was pending when the stream failed.",
+	Rule:  "the same step vocabulary as fault-enumeration, but over the repository's own stream transports (plain and packed) on a harness-owned byte pipe, half of the cases without and half with SetRead/WriteDeadline (the net.Conn path: cancellation interrupts stream calls through deadlines). The scenario is run fault-free to count the pipe's Write calls W and Read calls R; it is then re-run for EVERY Write index (failing after accepting 0 or a drawn number of bytes, always short of the buffer) and EVERY Read index (delivering 0 or a drawn number of bytes, then an error or EOF). With a deadline-capable stream, EVERY Write index is also re-run as a STALL: the stream takes 0 or the drawn number of bytes and stops; every application context is cancelled; the stream then either recovers at once (the transport completes the frame within its partial-write timeout) or stays stuck beyond that timeout (30 ms). Oracle per run: the termination/cleanup oracle of fault-enumeration, the stream is closed, and once a failed Write left the stream in the middle of a frame (judged by an independent frame/packing parser) no later byte is written into it; bytes written after a partly accepted buffer are exactly the missing rest of that buffer; the Write calls follow the frame grammar (a segment table announcing k segments is followed by exactly those k buffers before the next table), so nothing the peer reads can be garbage. Non-trivial: a call was pending when the stream failed.",
 	Quick: 40, Thorough: 400,
 	Gen: func(t *rapid.T) SCase {
-		c := SCase{Packed: rapid.Bool().Draw(t, "packed"), Keeps: []int{0, rapid.IntRange(1, 4000).Draw(t, "keep")}}
+		c := SCase{Packed: rapid.Bool().Draw(t, "packed"), Deadline: rapid.Bool().Draw(t, "deadline"), Keeps: []int{0, rapid.IntRange(1, 4000).Draw(t, "keep")}}
 		for i, n := 0, rapid.IntRange(2, 8).Draw(t, "n"); i < n; i++ {
 			kinds := stepKinds
 			if i == 0 {
